@@ -21,8 +21,12 @@
 #include <stdlib.h>
 #include <string.h>
 
-#include <aws/common/clock.h>
 #include <aws/common/math.h>
+/* clock.inl: the overlay copy (built-in mutants) wins when present; its include guard then hides the tree's copy */
+#if defined(__has_include) && __has_include("ovl/include/aws/common/clock.inl")
+#    include "ovl/include/aws/common/clock.inl"
+#endif
+#include <aws/common/clock.h>
 
 /* ---- assembly variant ---- */
 #define aws_mul_u64_saturating asm_aws_mul_u64_saturating
